@@ -335,6 +335,15 @@ func (w *world) serve(body []byte, c *reqCtx) (int, []byte) {
 	c.kekCalls = 0
 	fb := &faultyBody{b: body, short: c.bodyShort, errAt: c.bodyErrAt}
 	req, _ := http.NewRequest(http.MethodPost, "http://js.sim/", fb)
+	// a server sees the declared length of an identity-encoded body, and -1
+	// for a chunked one (the body reader delivers what it delivers either way)
+	if (len(body)+c.deliveries)%3 != 0 {
+		req.ContentLength = int64(len(body))
+		req.Header.Set("Content-Length", fmt.Sprint(len(body)))
+	} else {
+		req.ContentLength = -1
+		req.TransferEncoding = []string{"chunked"}
+	}
 	rw := &respWriter{hdr: http.Header{}, writeErr: c.writeErr}
 	if enterHandler() > 1 {
 		simrt.Count(cConcurrent)
